@@ -125,6 +125,14 @@ CLAIMS = {
                  'additions / clear), and after freeze every networkx mutator (must raise, state unchanged). '
                  'Accepted operations alone are replayed at the end (shadow). Open finding D23 (pinned): dynetx own '
                  'mutators still work on frozen graphs.'),
+    'C20': claim('exploration', 'DESIGN.md 7/C20',
+                 'deterministic simulation: conformity probes on reached states + mirror replay of the same history under renaming (observer)',
+                 'delta_conformity / sliding_delta_conformity are probed on labelled DynGraph states reached through '
+                 'simulated histories for seeded (start, delta, alphas, path type): None iff the window holds no '
+                 'snapshot, support = nodes present at start, scores in [-1,1], uniform labels give 1 exactly for '
+                 'nodes whose brute-force path set reaches another node (0 otherwise), the sliding result equals '
+                 'the per-t calls stamped t+delta, and the same call history replayed with renamed node ids and label '
+                 'values gives equal scores. Pure function of (graph, parameters): no fault or PRNG dimension.'),
     'C16': claim('exploration', 'DESIGN.md 7/C16',
                  'deterministic simulation: conversions derived mid-history + aliasing interleaving (mutate one replica, observe the others)',
                  'to_directed / to_undirected(reciprocal or not) are applied at seeded points; presence of the result '
@@ -150,7 +158,3 @@ NOT_APPLICABLE = {
     'C14': 'annotate_paths is a pure function of an argument list: no state, history, fault, I/O, PRNG or '
            'aliasing for a simulator to control (DESIGN.md section 8)',
 }
-for _p in ['C02', 'C06', 'C09', 'C10', 'C11', 'C12', 'C13', 'C15',
-           'C16', 'C17', 'C18', 'C19', 'C20']:
-    if _p not in CLAIMS:
-        NOT_APPLICABLE.setdefault(_p, 'check under construction in this session (DESIGN.md section 11); not claimed yet')
